@@ -214,14 +214,112 @@ func (w *apiWorld) client() *api.Client {
 	return api.NewClient(u, &http.Client{Transport: memTransport{w}})
 }
 
-// deadNet replaces http.DefaultTransport for the run: the registry is unreachable
-// (a create FROM a model deleted meanwhile would otherwise try to pull it).
-type deadNet struct{}
+// simNet replaces http.DefaultTransport for the run. Every host is unreachable (a
+// create FROM a model deleted meanwhile would otherwise try the real registry) except a
+// tiny simulated registry "registry.sim" and its CDN "cdn.sim", which publish the run's
+// remote models (C15: concurrent pulls share blobDownloadManager entries). The protocol
+// is the one server/download.go speaks: manifest GET, blob HEAD for the size, blob GET
+// answered 307 to the CDN, ranged GETs there.
+type simNet struct {
+	manifests map[string][]byte // "library/<name>" -> manifest JSON
+	blobs     map[string][]byte // digest -> content
+	failRate  int               // 1/n of CDN chunk requests answer 503 (0 = never)
+}
 
-func (deadNet) RoundTrip(req *http.Request) (*http.Response, error) {
+func simResp(req *http.Request, code int, hdr map[string]string, body []byte) *http.Response {
+	h := http.Header{}
+	for k, v := range hdr {
+		h.Set(k, v)
+	}
+	if req.Method == http.MethodHead {
+		body = nil
+	}
+	return &http.Response{StatusCode: code, Status: strconv.Itoa(code) + " " + http.StatusText(code), Proto: "HTTP/1.1", ProtoMajor: 1, ProtoMinor: 1,
+		Header: h, Body: io.NopCloser(bytes.NewReader(body)), ContentLength: int64(len(body)), Request: req}
+}
+
+func (n *simNet) RoundTrip(req *http.Request) (*http.Response, error) {
 	verifsim.Yield("sim:net")
+	if err := req.Context().Err(); err != nil {
+		return nil, err
+	}
+	path := req.URL.Path
+	switch req.URL.Host {
+	case "registry.sim":
+		if !strings.HasPrefix(path, "/v2/") {
+			break
+		}
+		rest := strings.TrimPrefix(path, "/v2/")
+		if i := strings.Index(rest, "/manifests/"); i > 0 {
+			if m, ok := n.manifests[rest[:i]]; ok {
+				verifsim.Probe("registry_manifest_served")
+				return simResp(req, 200, map[string]string{"Content-Type": "application/vnd.docker.distribution.manifest.v2+json"}, m), nil
+			}
+			return simResp(req, 404, nil, []byte(`{"errors":[{"code":"MANIFEST_UNKNOWN","message":"manifest unknown"}]}`)), nil
+		}
+		if i := strings.Index(rest, "/blobs/"); i > 0 {
+			d := rest[i+len("/blobs/"):]
+			b, ok := n.blobs[d]
+			if !ok {
+				return simResp(req, 404, nil, []byte(`{"errors":[{"code":"BLOB_UNKNOWN","message":"blob unknown"}]}`)), nil
+			}
+			if req.Method == http.MethodHead {
+				r := simResp(req, 200, map[string]string{"Content-Length": strconv.Itoa(len(b))}, nil)
+				r.ContentLength = int64(len(b))
+				return r, nil
+			}
+			return simResp(req, http.StatusTemporaryRedirect, map[string]string{"Location": "http://cdn.sim/blobs/" + d}, nil), nil
+		}
+	case "cdn.sim":
+		d := strings.TrimPrefix(path, "/blobs/")
+		b, ok := n.blobs[d]
+		if !ok {
+			return simResp(req, 404, nil, nil), nil
+		}
+		if n.failRate > 0 && verifsim.Draw("cdn-fail", n.failRate) == 0 {
+			verifsim.Fault("cdn_503")
+			return simResp(req, 503, nil, []byte("busy")), nil
+		}
+		lo, hi := 0, len(b)-1
+		if rg := req.Header.Get("Range"); strings.HasPrefix(rg, "bytes=") {
+			parts := strings.SplitN(strings.TrimPrefix(rg, "bytes="), "-", 2)
+			if v, err := strconv.Atoi(parts[0]); err == nil {
+				lo = v
+			}
+			if len(parts) == 2 && parts[1] != "" {
+				if v, err := strconv.Atoi(parts[1]); err == nil && v < hi {
+					hi = v
+				}
+			}
+		}
+		if lo > hi+1 || lo > len(b) {
+			return simResp(req, http.StatusRequestedRangeNotSatisfiable, nil, nil), nil
+		}
+		verifsim.Probe("cdn_chunk_served")
+		return simResp(req, http.StatusPartialContent, map[string]string{"Content-Range": fmt.Sprintf("bytes %d-%d/%d", lo, hi, len(b))}, b[lo:hi+1]), nil
+	}
 	verifsim.Probe("net_unreachable")
 	return nil, errors.New("sim: network is unreachable")
+}
+
+// addRemote publishes a model on the simulated registry; it is not in the local store
+// until some client pulls it. Controller only, before any task runs.
+func (w *apiWorld) addRemote(tag string, blocks int, tmpl string, name string) *apiFamily {
+	f := w.addFamily(tag, blocks, false, tmpl, "registry.sim/library/"+name, name+"-copy", name+"2")
+	f.remote = true
+	cfg := []byte(`{"model_format":"gguf","model_family":"llama","model_families":["llama"],"model_type":"1B","file_type":"F32","architecture":"amd64","os":"linux","rootfs":{"type":"layers","diff_ids":["` + f.digest + `"]}}`)
+	tb := []byte(tmpl)
+	dg := func(b []byte) string { return fmt.Sprintf("sha256:%x", sha256.Sum256(b)) }
+	layer := func(mt string, b []byte) string {
+		return fmt.Sprintf(`{"mediaType":%q,"digest":%q,"size":%d}`, mt, dg(b), len(b))
+	}
+	man := `{"schemaVersion":2,"mediaType":"application/vnd.docker.distribution.manifest.v2+json","config":` + layer("application/vnd.docker.container.image.v1+json", cfg) +
+		`,"layers":[` + layer("application/vnd.ollama.image.model", f.gguf) + `,` + layer("application/vnd.ollama.image.template", tb) + `]}`
+	w.net.manifests["library/"+name] = []byte(man)
+	w.net.blobs[f.digest] = f.gguf
+	w.net.blobs[dg(cfg)] = cfg
+	w.net.blobs[dg(tb)] = tb
+	return f
 }
 
 // ---- world ---------------------------------------------------------------------------------
@@ -234,6 +332,7 @@ type apiFamily struct {
 	digest    string // sha256:<hex>
 	blobPath  string
 	names     []string // names that may ever refer to this family's model layer
+	remote    bool     // published on the simulated registry only; reaches the store by a pull
 }
 
 type apiWorld struct {
@@ -247,6 +346,7 @@ type apiWorld struct {
 	srv    *Server
 	h      http.Handler
 	inv    *simInventory
+	net    *simNet
 	ginErr bytes.Buffer
 	fams   []*apiFamily
 
@@ -337,7 +437,8 @@ func newAPIWorld(t *testing.T, sim *verifsim.Sim, prop string, gpu apiGPU, maxRu
 	gin.DefaultErrorWriter = &w.ginErr
 
 	w.oldTrans = http.DefaultTransport
-	http.DefaultTransport = deadNet{}
+	w.net = &simNet{manifests: map[string][]byte{}, blobs: map[string][]byte{}}
+	http.DefaultTransport = w.net
 
 	inv := &simInventory{w: &w.simLlamaWorld}
 	mk := func(lib, id string, gb int) *simGPU {
@@ -489,6 +590,9 @@ func (w *apiWorld) createModel(f *apiFamily, name, system string, params map[str
 // setup uploads every family's blob and creates its first name; returns an error text or "".
 func (w *apiWorld) setup(systems map[string]string) string {
 	for _, f := range w.fams {
+		if f.remote {
+			continue
+		}
 		if c := w.uploadBlob(f); c != http.StatusCreated && c != http.StatusOK {
 			return fmt.Sprintf("blob upload for %s: status %d", f.tag, c)
 		}
